@@ -995,4 +995,30 @@ theorem parseMsg_fn {data : List Nat} {msg : Trxd.TxMsg} (h : Trxd.TxMsg.parseMs
   · cases h
   split at h <;> (cases h; exact ⟨fn, rfl⟩)
 
+/-! ### concrete worlds for the non-vacuity examples of Props/C03 -/
+
+/-- two running, tuned transceivers (BTS side and MS side), clock generator running at frame `c` -/
+def demoWorld (c : Nat) : World :=
+  { trxs := [
+      { addr := 1, basePort := 5700, childIdx := 0, childMgt := true, hasClock := true,
+        running := true, rxFreq := some 890000000, txFreq := some 935000000 },
+      { addr := 2, basePort := 6700, childIdx := 0, childMgt := false, hasClock := true,
+        running := true, rxFreq := some 935000000, txFreq := some 890000000 }],
+    clkLinks := [0, 1], clkRunning := true, clkSrc := some c }
+
+/-- a version-0 L1→TRX datagram: header (ver/tn, FN big-endian, power) and 148 hard bits -/
+def demoBurst (fn : Nat) : List Nat :=
+  [0, fn / 16777216 % 256, fn / 65536 % 256, fn / 256 % 256, fn % 256, 10] ++ List.replicate 148 1
+
+/-- the message `demoBurst fn` parses to -/
+def demoMsg (fn : Nat) : Trxd.TxMsg := ⟨0, some fn, some 0, some 10, some (List.replicate 148 1)⟩
+
+/-- three bursts to transceiver 0: one due at frame 100, one whose frame has passed, one ahead -/
+def demoArrivals : List Op := [.data 0 (demoBurst 100), .data 0 (demoBurst 90), .data 0 (demoBurst 110)]
+
+/-- the TRXC datagram `CMD POWEROFF` -/
+def demoPoweroff : List Nat := PyStr.encodeUtf8 (PyStr.lit "CMD POWEROFF\x00")
+/-- the TRXC datagram `CMD SETFORMAT 1` -/
+def demoSetformat1 : List Nat := PyStr.encodeUtf8 (PyStr.lit "CMD SETFORMAT 1\x00")
+
 end OsmoVerif.World
